@@ -27,6 +27,12 @@ func TestC15BaseContentKept(t *testing.T) {
 		{"element prefix", `<s:svg xmlns:s="http://www.w3.org/2000/svg"><s:rect/></s:svg>`, []string{"<s:svg", "<s:rect", "xmlns:s="}},
 		{"processing instruction inside root", `<svg><?foo bar?></svg>`, []string{"<svg><?foo bar?>"}},
 		{"two processing instructions", `<?xml version="1.0"?><?xml-stylesheet href="s.css"?><svg/>`, []string{`<?xml version="1.0"?>`}},
+		{"text and CDATA section", `<svg><text>a<![CDATA[b]]></text></svg>`, []string{">a"}},
+		{"comment splits text", `<svg><text>a<!-- c -->b</text></svg>`, []string{">a"}},
+		{"text before a child, blanks after it", "<svg><text>a<tspan/>\n</text></svg>", []string{">a<tspan"}},
+		{"two prefixed attributes, one local name", `<svg><g a:x="1" b:x="2"/></svg>`, []string{`a:x="1"`, `b:x="2"`}},
+		{"processing instruction after the root", `<svg/><?foo bar?>`, []string{"/><?foo bar?>"}},
+		{"processing instruction behind the DOCTYPE", `<!DOCTYPE svg><?foo bar?><svg/>`, []string{"<!DOCTYPE svg><?foo bar?>"}},
 	}
 	for _, c := range cases {
 		doc := GenerateCompositeSVGdoc(topo, c.base, map[uint32]uint32{}, true, true, false, false)
@@ -50,6 +56,8 @@ func TestC15ValidBaseRejected(t *testing.T) {
 		`<?xml version="1.0" encoding="ISO-8859-1"?><svg/>`,
 		`<?xml version="1.1"?><svg/>`,
 		`<!DOCTYPE svg [<!ENTITY e "v">]><svg><text>&e;</text></svg>`,
+		`<?xml version="1.0" encoding="US-ASCII" standalone="yes"?><svg><g/></svg>`,
+		`<?xml version="1.0"?><!DOCTYPE svg [<!ENTITY col "#f00"> <!ENTITY w "10">]><svg><rect fill="&col;" width="&w;"/></svg>`,
 	} {
 		if out := GenerateCompositeSVG(topo, base, nil); out == "" {
 			t.Errorf("valid base gives the empty result: %s", base)
